@@ -1600,6 +1600,40 @@ func (bf *boundsFn) callerPreconditions() {
 	}
 	precondBusy[f] = true
 	defer func() { precondBusy[f] = false }()
+	// relation between two list parameters: len(a) <= len(b) when every call
+	// site proves it for the two arguments at the call
+	for ia, pa := range f.Params {
+		for ib, pb := range f.Params {
+			if ia == ib || !isSliceOrString(pa.Type()) || !isSliceOrString(pb.Type()) {
+				continue
+			}
+			all := true
+			for _, c := range calls {
+				caller := c.Parent()
+				cc, isCall := c.(*ssa.Call)
+				if !isCall || caller == nil || caller == f || precondBusy[caller] || c.Common().IsInvoke() || c.Common().StaticCallee() != f || ia >= len(c.Common().Args) || ib >= len(c.Common().Args) {
+					all = false
+					break
+				}
+				cbf, ok := precondCache[caller]
+				if !ok {
+					cbf = newBoundsFn(bf.p, bf.fw, caller)
+					precondCache[caller] = cbf
+				}
+				la, lo := cbf.lenAtom(c.Common().Args[ia])
+				lb, lob := cbf.lenAtom(c.Common().Args[ib])
+				if !cbf.prove(la, lo, lb, lob, cc, nil) {
+					all = false
+					break
+				}
+			}
+			if all {
+				la, lo := bf.lenAtom(pa)
+				lb, lob := bf.lenAtom(pb)
+				bf.addBase(la, lo, lb, lob, 0, fmt.Sprintf("every call of %s passes lists with len(%s) <= len(%s)", funcName(f), pa.Name(), pb.Name()))
+			}
+		}
+	}
 	first := f.Blocks[0].Instrs[0]
 	eachInstr(f, func(ins ssa.Instruction) {
 		ld, ok := ins.(*ssa.UnOp)
